@@ -58,6 +58,7 @@ type TraceRec struct {
 var callSeq int64
 
 const freeHang = 60 * time.Second
+const maxEvents = 400
 
 var hung int32
 
@@ -66,7 +67,9 @@ func runOne(n int, g Graph, strat vsched.Strategy, budget int) ([]Event, vsched.
 	var mu sync.Mutex
 	log := func(e, r, x string) {
 		mu.Lock()
-		evs = append(evs, Event{e, r, x})
+		if len(evs) < maxEvents { // a run that never ends is cut by the step budget; keep its trace small
+			evs = append(evs, Event{e, r, x})
+		}
 		mu.Unlock()
 	}
 	body := func() {
@@ -249,6 +252,11 @@ func main() {
 					col.add("dfs", n, g, evs, o)
 					res.Eval(n > 1)
 					cnt++
+					if o.Status != "done" {
+						// one failing run per (n, graph) is enough; the space below it may be unbounded
+						res.Count("dfs_stopped_at_failure", 1)
+						break
+					}
 					if !d.Next() || cnt >= *maxruns {
 						if cnt >= *maxruns {
 							res.Count("dfs_truncated", 1)
